@@ -41,7 +41,10 @@ def main():
         print("VIOLATION property=%s replay=%s no-failing-input-found" % (pid, rp))
         rc = 1
     finally:
-        shutil.rmtree(work, ignore_errors=True)
+        if os.environ.get("VERIF_KEEP") != "1":
+            shutil.rmtree(work, ignore_errors=True)
+        else:
+            print("workdir kept: " + work)
     print("[%s %s seed=%d] exit=%d wall=%.1fs" % (pid, tier, seed, rc, time.time() - t0))
     sys.exit(rc)
 
